@@ -602,13 +602,16 @@ var mul32 = []*instructionType{
 			r1Abs := exprtools.Abs(r1, width32)
 			mul := expr.NewBinary(expr.Mul, r1Abs, r2, width64)
 			shift := expr.ConstFromUint[uint8](32)
-			shifted := expr.NewBinary(expr.Rsh, mul, shift, width64)
-			val := exprtools.BoolCond(
+			// The product is negative iff r1 is negative. The whole
+			// product has to be negated before its upper half is taken.
+			signedMul := exprtools.BoolCond(
 				exprtools.IntNegative(r1, width32),
-				shifted,
-				exprtools.Negate(shifted, width32),
-				width32,
+				exprtools.Negate(mul, width64),
+				mul,
+				width64,
 			)
+			shifted := expr.NewBinary(expr.Rsh, signedMul, shift, width64)
+			val := exprtools.NewWidthGadget(shifted, width32)
 			return []expr.Effect{regStore(val, i, width32)}
 		},
 	}, {
